@@ -49,7 +49,15 @@ func c03Scripts(g *Gen, id string, kind byte) []Action {
 	return nil
 }
 
-func genC03(rng *Rng, sc *Scenario) {
+func genC03(rng *Rng, sc *Scenario) { genC03With(rng, sc, false) }
+
+// genC03Race draws coarse schedules (at most four preemptions): the detector
+// flags unsynchronised conflicting accesses whatever their distance in time, so
+// fine interleaving buys little there, and every task switch costs two
+// collections (see Sched.Run).
+func genC03Race(rng *Rng, sc *Scenario) { genC03With(rng, sc, true) }
+
+func genC03With(rng *Rng, sc *Scenario, coarse bool) {
 	g := NewGen(rng, sc)
 	g.GenShape(ShapeCfg{
 		MaxRoutes: 6, MaxGlobals: 4, GroupChance: [2]int{1, 3},
@@ -79,7 +87,11 @@ func genC03(rng *Rng, sc *Scenario) {
 	sc.Pool = GenPool(rng)
 	sc.Sites = GenSites(rng)
 	sc.OrderSeed = rng.U64() | 1
-	sc.Schedule, _ = GenSchedule(rng, nTasks, 30*totalReq)
+	if coarse {
+		sc.Schedule = GenCoarseSchedule(rng, nTasks, 30*totalReq)
+	} else {
+		sc.Schedule, _ = GenSchedule(rng, nTasks, 30*totalReq)
+	}
 }
 
 type CheckOut struct {
